@@ -60,23 +60,28 @@ func verifyFunc(w *World, fn *ssa.Function, fc *FuncContract) (fr *FuncResult) {
 	for i, p := range fn.Params {
 		f.vals[p] = args[i]
 	}
+	// AST invariant for parameters (G3): sealed AST interfaces hold no typed-nil
+	// pointers; slices of AST nodes hold no nil elements.
+	for i, p := range fn.Params {
+		e.assumeParamWF(st, args[i], p.Type(), name, p.Name())
+	}
 	if len(w.contracts.GlobalInvs) > 0 {
 		genv := &SpecEnv{vars: map[string]Val{}, st: st}
 		for _, c := range w.contracts.GlobalInvs {
 			if !e.mentionsUsedGlobal(c, fn) {
 				continue
 			}
-			e.assume(e.safeEvalBool(c, genv))
+			e.assume(e.safeEvalHyp(c, genv))
 			e.assumed = append(e.assumed, "package-level invariant established by the initialiser (assumed): "+c.Text)
 		}
 	}
 	if fc != nil {
 		env := e.baseEnv(f, st)
 		for _, c := range fc.Requires {
-			e.assume(e.safeEvalBool(c, env))
+			e.assume(e.safeEvalHyp(c, env))
 		}
 		for _, c := range fc.Assumes {
-			e.assume(e.safeEvalBool(c, env))
+			e.assume(e.safeEvalHyp(c, env))
 			e.assumed = append(e.assumed, fmt.Sprintf("%s: assume %s", name, c.Text))
 		}
 		// vacuity: the pre-condition must be satisfiable
@@ -336,4 +341,59 @@ func replacerLemma(w *World, rp *ReplacerSpec) (*Lemma, error) {
 	}
 	return &Lemma{Name: "replacer " + rp.Global, Props: rp.Props, Text: fmt.Sprintf("table of %s %v == spec_esc(%s, .): forall c rune :: %s", rp.Global, pairs, rp.Quote, txt),
 		Vars: []LemmaVar{{"c", "rune"}}, Expr: ex, File: rp.File, Line: rp.Line}, nil
+}
+
+func (e *Enc) isASTType(t types.Type) bool {
+	switch u := t.(type) {
+	case *types.Pointer:
+		if n, ok := u.Elem().(*types.Named); ok && n.Obj().Pkg() != nil && n.Obj().Pkg().Path() == repoPkgPath {
+			_, isStruct := n.Underlying().(*types.Struct)
+			return isStruct
+		}
+	case *types.Named:
+		if it, ok := u.Underlying().(*types.Interface); ok && u.Obj().Pkg() != nil && u.Obj().Pkg().Path() == repoPkgPath {
+			return !e.w.openInterface(it)
+		}
+	}
+	return false
+}
+
+func (e *Enc) assumeParamWF(st *State, v Val, t types.Type, fn, pname string) {
+	if e.fc == nil || !e.fc.ASTParams {
+		return
+	}
+	switch v.Sh.K {
+	case KIface:
+		if e.isASTType(t) {
+			e.assume(fmt.Sprintf("(=> (isptrtype %s) (not (= %s 0)))", v.Sub[0].T, v.Sub[1].T))
+			e.usedTypeInvs["parameters of AST interface type hold no typed-nil pointer"] = true
+		}
+	case KSlice:
+		sl, ok := t.Underlying().(*types.Slice)
+		if !ok || !e.isASTType(sl.Elem()) {
+			return
+		}
+		el := sl.Elem()
+		base, off, ln := v.Sub[0].T, v.Sub[1].T, v.Sub[2].T
+		mk := func(k string) string {
+			h := func(suffix string) string {
+				hp := e.heap(e.entry, elemPath(el)+suffix, KInt)
+				return fmt.Sprintf("(select (select %s %s) (+ %s %s))", hp.Term, base, off, k)
+			}
+			var body string
+			if shapeOf(el).K == KIface {
+				body = fmt.Sprintf("(and (not (= %s 0)) (=> (isptrtype %s) (not (= %s 0))))", h("#typ"), h("#typ"), h("#val"))
+			} else {
+				body = fmt.Sprintf("(not (= %s 0))", h(""))
+			}
+			return fmt.Sprintf("(=> (and (<= 0 %s) (< %s %s)) %s)", k, k, ln, body)
+		}
+		e.ctr["qf"]++
+		qf := &quantFact{id: e.ctr["qf"], reach: "true", elems: map[string]bool{elemPath(el): true}, inst: mk}
+		e.quantFacts = append(e.quantFacts, qf)
+		if keepQuantifiers {
+			e.assume("(forall ((k!p Int)) " + mk("k!p") + ")")
+		}
+		e.usedTypeInvs["slice parameters of AST nodes hold no nil element"] = true
+	}
 }
